@@ -15,11 +15,12 @@ import (
 // Merge with the observation before it.
 
 type longJob struct {
-	Mode  int  `json:"mode"`
-	RW    int  `json:"rw"`
-	Shard int  `json:"shard"`
-	Of    int  `json:"of"`
-	Big   bool `json:"big"`
+	Mode  int   `json:"mode"`
+	RW    int   `json:"rw"`
+	Shard int   `json:"shard"`
+	Of    int   `json:"of"`
+	Big   bool  `json:"big"`
+	Seg   int64 `json:"seg"` // 0 = 100
 }
 
 type longOut struct {
@@ -61,6 +62,9 @@ func longWorker(arg json.RawMessage) interface{} {
 	json.Unmarshal(arg, &j)
 	out := &longOut{}
 	cfg := core.Cfg{Mode: j.Mode, RW: j.RW, Start: j.RW, Seg: 100}
+	if j.Seg > 0 {
+		cfg.Seg = j.Seg
+	}
 	queries := mixedObsFor(core.Cfg{Mode: core.K}) // KV queries
 	seen := map[string]bool{}
 	idx := 0
@@ -165,6 +169,13 @@ func runLong(r *Run) {
 	for _, mr := range [][2]int{{core.KV, core.F}, {core.K, core.F}, {core.KV, core.M}, {core.K, core.M}} {
 		for s := 0; s < shards; s++ {
 			args = append(args, longJob{Mode: mr[0], RW: mr[1], Shard: s, Of: shards, Big: r.Tier == "thorough"})
+		}
+	}
+	// segment size 94: two 47-byte records fill a segment EXACTLY (Commit rotates on >, so the last
+	// record of such a segment ends at the boundary)
+	for _, mr := range [][2]int{{core.KV, core.F}, {core.K, core.M}} {
+		for s := 0; s < shards; s++ {
+			args = append(args, longJob{Mode: mr[0], RW: mr[1], Shard: s, Of: shards, Big: r.Tier == "thorough", Seg: 94})
 		}
 	}
 	merges, ok := 0, 0
